@@ -6,6 +6,12 @@ import json, subprocess
 TRAV_NOTE = "Trusted: the harness's response-graph generator and its own XOR-distance code; the DoQuery seam (no server, no socket: the real traversal.Operation with k-nearest, containers, types and int160 is what runs); the source overlay's yield points (lock-site audit on every build); testing/synctest quiescence."
 WIRE_NOTE = "Trusted: the harness's own bencode codec, KRPC reading of BEP 5/32/42/44 and (for table checks) the verif-tagged read-only snapshot hook; source addresses only in forms a real socket reports; testing/synctest fake clock and quiescence; lock-order scheduling of the instrumented packages."
 claimed = {
+ "C07": dict(
+   text="Concurrent outbound queries of a real Server against an adversarial datagram stream (spoofed address/port, adjacent/prefix/extended/foreign transaction ids, duplicates, replays) with unique markers per datagram; the completion history of every call is checked against the simulator's own record of which datagram matched which (address, t) while the call was outstanding; also at yield granularity, where registration, send and reply hand-over are scheduling points. Exploration over sampled call sets, streams and schedules.",
+   note=WIRE_NOTE + " Real transaction ids are shown to the adversary (no canonical translation in this scenario).", design="§5 C07"),
+ "C14": dict(
+   text="Fault placement on every outbound path of a real Server: per-send write errors and short writes, replies after the k-th send / late / never, context cancellation and Close at arbitrary simulated times, starting-node failure modes, packet loss, for single queries (NumTries 1-5) and every traversal owner; return, datagram count, exact time-out instant, pending-transaction count and the set of live goroutines of the module are checked at quiescence and after Close. Exploration over sampled fault placements and schedules.",
+   note=WIRE_NOTE + " Goroutine accounting reads runtime.Stack for frames of the module within the run's synctest bubble.", design="§5 C14"),
  "C05": dict(
    text="Seeded deterministic simulation of a real Server's routing table under generated traffic/API/time histories (bucket floods, aliasing IDs and addresses, own/zero IDs, ping time-outs, table maintainer, clock advances): structural invariants and API agreement are evaluated on a snapshot after every datagram that reached the server. Exploration over sampled histories.",
    note=WIRE_NOTE, design="§5 C05"),
